@@ -165,10 +165,12 @@ PROPS["C18"] = dict(
 )
 
 PROPS["C19"] = dict(
-    units=[("kani", "pcapcodec")],
-    explanation="Global and record header codecs verified on all 24/16 header bytes: accepted magics, little-endian field layout, encode(decode(b)) == b; short buffers are errors.",
-    not_covered=["Pcap::next_packet / pcap_read_all record loop against the stream model (pcap Verus unit, when built)", "OS delivery of file bytes"],
-    assumptions=[],
+    units=[("kani", "pcapcodec"), ("verus", "pcapio")],
+    explanation="Global and record header codecs verified on all 24/16 header bytes: accepted magics, little-endian field layout, encode(decode(b)) == b; short buffers are errors. "
+                "Pcap::next_packet is verified against the stream model for files and stdin: it succeeds exactly when the stream holds a complete record with caplen <= snaplen, "
+                "returns that record's header fields and bytes, and consumes exactly 16 + caplen bytes; any other handle is an error.",
+    not_covered=["pcap_read_all / pcap_read_next loops over next_packet (thin wrappers: stop at UnexpectedEof, propagate other errors as error objects)", "write_all + BufWriter (std)", "OS delivery of file bytes"],
+    assumptions=["read_exact fails only with end of input (other I/O errors are outside the stream model)"],
     trusted=COMMON_TRUST,
 )
 
